@@ -1141,3 +1141,47 @@ M("n69", "neutral", [], "treeinfo Variant.deserialize_1_0: section lookup extrac
 class Images(productmd.common.MetadataBase):
 
     def __init__(self, metadata):'''))
+
+M("n70", "neutral", [], "Images.add: collision test split into 'continue' + 'if'",
+  (IM, '''                        if identify_image(curimg) == identify_image(image) and curimg.checksums != image.checksums:
+                            raise ValueError("Image {0} shares all UNIQUE_IMAGE_ATTRIBUTES with "
+                                             "image {1}! This is forbidden.".format(image, curimg))''', '''                        if identify_image(curimg) != identify_image(image):
+                            continue
+                        if curimg.checksums != image.checksums:
+                            raise ValueError("Image {0} shares all UNIQUE_IMAGE_ATTRIBUTES with "
+                                             "image {1}! This is forbidden.".format(image, curimg))'''))
+M("n71", "neutral", [], "Modules.add: emptiness checks written as a table-driven loop over a tuple of pairs",
+  (MO, '''        for param_name, param in {"variant": variant, "koji_tag": koji_tag, "modulemd_path": modulemd_path}.items():
+            if not param:
+                raise ValueError("Non-empty '%s' is expected" % param_name)''', '''        for param_name, param in (("variant", variant), ("koji_tag", koji_tag), ("modulemd_path", modulemd_path)):
+            if not param:
+                raise ValueError("Non-empty '%s' is expected" % param_name)'''))
+M("n72", "neutral", [], "Modules.add: emptiness checks written out",
+  (MO, '''        for param_name, param in {"variant": variant, "koji_tag": koji_tag, "modulemd_path": modulemd_path}.items():
+            if not param:
+                raise ValueError("Non-empty '%s' is expected" % param_name)''', '''        if not modulemd_path:
+            raise ValueError("Non-empty 'modulemd_path' is expected")'''))
+
+M("n73", "neutral", [], "Image.deserialize: checksums copied entry by entry instead of aliasing the parsed document",
+  (IM, '''        self.checksums = data["checksums"]''', '''        self.checksums = {}
+        for checksum_type, checksum_value in data["checksums"].items():
+            self.checksums[checksum_type] = checksum_value'''))
+M("n74", "neutral", [], "Image.deserialize: checksums copied with dict()",
+  (IM, '''        self.checksums = data["checksums"]''', '''        self.checksums = dict(data["checksums"])'''))
+
+M("n75", "neutral", [], "Image.serialize: record building extracted into a method that returns the dict",
+  (IM, '''    def serialize(self, parser):
+        data = parser
+        self.validate()
+        result = {
+            "path": self.path,''', '''    def serialize(self, parser):
+        data = parser
+        data.append(self._as_record())
+
+    def _as_record(self):
+        self.validate()
+        result = {
+            "path": self.path,'''),
+  (IM, '''            result["additional_variants"] = self.additional_variants
+        data.append(result)''', '''            result["additional_variants"] = self.additional_variants
+        return result'''))
